@@ -540,6 +540,10 @@ func (d cffDict) readPrivate(p *parser.Parser, strings *cffStrings) (*privateInf
 	if !ok || pdOffs < 4 || pdSize < 0 {
 		return nil, errors.New("cff: missing Private DICT")
 	}
+	if int64(pdOffs)+int64(pdSize) > p.Size() {
+		// check the size before allocating the buffer
+		return nil, errors.New("cff: Private DICT extends beyond end of file")
+	}
 
 	err := p.SeekPos(int64(pdOffs))
 	if err != nil {
